@@ -25,6 +25,7 @@ def run(rep):
     rep.guard(n8, rep, w, 'C15')
     import c09
     rep.guard(c09.f5, rep, w)     # a fiber killed by a failed run is reported as finished by later snippets
+    rep.guard(c09.f9, rep, w, 'C15')   # ... and never as new
     import c05
     rep.guard(c05.e7, rep, w)     # a failed assignment to an undeclared global defines nothing for later snippets
     rep.guard(c14.m5, rep, w)     # a failed run must not drop modules from the registry: functions they handed out keep pointing at them
@@ -161,7 +162,34 @@ def n1(rep, w):
             if fld in assigned:
                 r.ok('Vm.%s per-run, assigned before run()' % fld)
             elif e.get('harmless'):
-                r.ok('Vm.%s per-run, not reset (listed harmless: %s)' % (fld, e['harmless']))
+                # the listed reason is "overwritten before it is read": then no writer may look at what it overwrites
+                peek_old = []
+                for p2 in sorted(reach):
+                    g = w.fns[p2]
+                    if g.crate is not c:
+                        continue
+                    gorg = None
+                    for bi, t in g.calls():
+                        n2 = strip_generics(callee_name(t) or '')
+                        # (a take() is the consumer of what the same run wrote; only a function that puts a *new* value in is an overwriter)
+                        if n2 not in ('std::option::Option::replace', 'std::mem::replace') or not t['args']:
+                            continue
+                        if gorg is None:
+                            gorg = origins(g)
+                        pl = op_place(t['args'][0])
+                        if not any(fld in q for q in gorg.get(pl['l'], ()) if pl):
+                            continue
+                        dl = t['dst']['l']
+                        used = any(dl == (op_place(o) or {}).get('l') for b in g.blocks for s_ in b['s'] for o in [(s_.get('r') or {}).get('o'), (s_.get('r') or {}).get('a')] if isinstance(o, dict)) or \
+                            any(((s_.get('r') or {}).get('p') or {}).get('l') == dl for b in g.blocks for s_ in b['s']) or \
+                            any(dl == (op_place(a) or {}).get('l') for b in g.blocks if b['t']['t'] == 'call' for a in b['t']['args'])
+                        if used and not n2.endswith(('::insert', 'get_or_insert', 'get_or_insert_with')):
+                            peek_old.append(p2)
+                if peek_old:
+                    r.bad('Vm.' + fld, 'per-run field that execute() does not reset is listed harmless because nothing reads it before overwriting it, but %s looks at the value it '
+                          'replaces: what a failed run left there now decides what the next run does' % sorted(set(peek_old)), ex.loc())
+                else:
+                    r.ok('Vm.%s per-run, not reset (listed harmless: %s)' % (fld, e['harmless']))
             else:
                 r.bad('Vm.' + fld, 'per-run field is not assigned on every path of execute() before run(): a run that ended in an uncaught '
                       'error leaves it set for the next snippet', ex.loc())
